@@ -2,6 +2,7 @@ package props
 
 import (
 	"fmt"
+	"reflect"
 	"strings"
 
 	"verifharness/core"
@@ -247,7 +248,81 @@ func (p c02) embeddedCycle(c *core.Ctx) {
 	c.Nontrivial("embeddedcycle|" + g.Sc.GraphSig())
 }
 
+// selfEmbedded: a point that (also) matches its own component, declared in an embedded struct at a non-zero
+// offset: it is never wired to its own holder - a self-only required point is an error, an optional one stays
+// empty, a slice holds every other candidate but not the holder.
+func (p c02) selfEmbedded(c *core.Ctx) {
+	k := world.SelfHolderKinds[c.Rng.Intn(len(world.SelfHolderKinds))]
+	h := k.New()
+	withOther := c.Rng.Intn(2) == 0
+	var other *world.SelfOther
+	extra := []any{h}
+	if withOther {
+		other = &world.SelfOther{}
+		extra = append(extra, other)
+	}
+	g := world.NewG(c.Rng)
+	for x, nx := 0, c.Rng.Intn(3); x < nx; x++ {
+		g.AddRandomNode(world.TypesEagerPlain, 0.2)
+	}
+	g.ShuffleOrders()
+	c.Rng.Shuffle(len(extra), func(a, b int) { extra[a], extra[b] = extra[b], extra[a] })
+	r := world.Start(g.Sc, world.Options{Extra: extra})
+	c.Count("starts", 1)
+	c.Count("self_embedded_starts", 1)
+	detail := failDetail(g.Sc, r, map[string]any{"holder": k.Label, "other_candidate_registered": withOther})
+	if abnormal(r.Outcome()) {
+		c.Fail("", k.Label+": "+core.Short(r.OutcomeDetail(), 300), detail)
+		return
+	}
+	hv := reflect.ValueOf(h).Elem()
+	satisfiable := withOther && k.OtherFit
+	if r.Outcome() != "ok" {
+		if satisfiable || !k.Required {
+			c.Fail("", k.Label+fmt.Sprintf(" (another candidate registered: %v): start failed: ", withOther)+core.Short(r.OutcomeDetail(), 300), detail)
+			return
+		}
+		c.Nontrivial("selfembedded-refused|" + k.Label)
+		return
+	}
+	if !satisfiable && k.Required {
+		c.Fail("", k.Label+": only the holder itself can satisfy the required point, yet the start succeeded (field = "+fmt.Sprint(hv.FieldByName(map[bool]string{true: "All", false: "Me"}[k.Slice]).Interface())+")", detail)
+		return
+	}
+	if k.Slice {
+		all := hv.FieldByName("All")
+		for i := 0; i < all.Len(); i++ {
+			if all.Index(i).Interface() == h {
+				c.Fail("", k.Label+": the slice contains its own holder", detail)
+				return
+			}
+		}
+		if want := map[bool]int{true: 1, false: 0}[satisfiable]; all.Len() != want {
+			c.Fail("", fmt.Sprintf("%s: the slice holds %d elements, %d other candidate(s) registered", k.Label, all.Len(), want), detail)
+			return
+		}
+	} else {
+		me := hv.FieldByName("Me")
+		switch {
+		case !me.IsNil() && me.Interface() == h:
+			c.Fail("", k.Label+": the point is wired to its own holder", detail)
+			return
+		case satisfiable && (me.IsNil() || me.Interface() != any(other)):
+			c.Fail("", k.Label+": the point does not hold the other candidate", detail)
+			return
+		case !satisfiable && !me.IsNil():
+			c.Fail("", k.Label+": the point holds something although nothing but the holder fits", detail)
+			return
+		}
+	}
+	c.Nontrivial(fmt.Sprint("selfembedded-ok|", k.Label, withOther))
+}
+
 func (p c02) Run(c *core.Ctx) {
+	if c.Index >= p.enumCount(c.Tier) && c.Index%40 == 33 {
+		p.selfEmbedded(c)
+		return
+	}
 	if c.Index >= p.enumCount(c.Tier) && c.Index%40 == 9 {
 		p.embeddedCycle(c)
 		return
